@@ -29,7 +29,8 @@ CLAIMED = {
               "header + declared payload (stays in sync); magic/size errors consume only the header; the limits "
               "characterisation incl. the block exception; session error policy. The round trip for commands ending in NUL is "
               "refuted in Coq (C07_roundtrip_refuted) and reported as known finding F17. Correspondence: real BitcoinFramer vs "
-              "model instantiated with an executable SHA-256, byte-exact, bit flips in every field, boundary lengths."),
+              "model instantiated with an executable SHA-256, byte-exact, bit flips in every field, boundary lengths."
+              " BitcoinFramer's reading path (_receive_header, receive_message) and writing path (pad_command, _build_header, frame) are TRANSLATED from the Python source on every run and shown equal to the model's receive_message / pad_command / frame for every checksum function, parameter set and queue state."),
         note=TB + "hashlib.sha256 trusted as the checksum oracle; MessageSession policy is proved on the model, its tie to session.py is by the C07 session scenarios.",
         technique="Coq proof (refinement of the chunked reader to a stream parser, list induction) + vm_compute correspondence against the real BitcoinFramer",
         ref='6/C07'),
@@ -172,7 +173,8 @@ CLAIMED = {
               "any history; a batch completes with one value per request in member order for EVERY permutation of the response "
               "members (insertion sort + uniqueness of strictly sorted permutations); cancel releases everything. "
               "Correspondence: operation traces against the real connection for v1/v2/Loose/AutoDetect with an independently "
-              "encoded response stream; outcome, completed future + values, len(pending) after every operation."),
+              "encoded response stream; outcome, completed future + values, len(pending) after every operation."
+              " JSONRPCConnection's receive_message (dispatcher), _receive_response, _receive_response_batch, send_request and send_batch are TRANSLATED from the Python source on every run; interpreters run them and theorems show them equal to the model for every connection state and byte string (C01_receive_message_dispatch_from_source ...); a late response to an abandoned request is consumed quietly (C01_abandoned_response_consumed)."),
         note=TB + "That the caller's `await future` returns what was put into the future is asyncio's; the session-level path (send_request through RPCSession) is exercised by the C20/C08 scenarios, not proved.",
         technique="Coq proof (invariants by induction over operation lists; Permutation/StronglySorted argument for batch order) + vm_compute trace correspondence against JSONRPCConnection",
         ref='6/C01'),
@@ -183,7 +185,8 @@ CLAIMED = {
               "nothing and the last returns the one batch response (error entries first, then the entries in supply order). "
               "The clause 'one error entry per invalid member' is REFUTED in Coq for batches without any request member but "
               "with a notification (C02_refuted = known finding F9). Correspondence: real connection, batch compositions with "
-              "all member kinds and id types, results supplied in random orders with sizes around max_response_size."),
+              "all member kinds and id types, results supplied in random orders with sizes around max_response_size."
+              " The reply side (item_send_result - the closure of _receive_request_batch with its size arithmetic - and _send_result) is TRANSLATED from the Python source on every run and shown equal to the model's batch_send_result / send_result."),
         note=TB + "Error message texts of library-generated replies are not modelled: replies are compared through (id, result | error code) signatures.",
         technique="Coq proof (induction over the supply list) + refutation witness by vm_compute + trace correspondence",
         ref='6/C02'),
@@ -199,7 +202,8 @@ CLAIMED = {
               "as itself: proved for the shapes float.__repr__ produces, assumed in general) - composed with UTF-8 decoding into "
               "message_to_item (encode_payload p) = payload_to_item p, i.e. the round trips hold down to the bytes on the wire. "
               "Correspondence: real *_message classmethods byte-exact vs Json.print; "
-              "message_to_item and detect_protocol on member-set x value-type payloads, batches and a malformed stream."),
+              "message_to_item and detect_protocol on member-set x value-type payloads, batches and a malformed stream."
+              " The decoding side is TRANSLATED from the Python source on every run: _message_id / _validate_message / _request_args / response_value of the three protocol classes, _best_effort_error, _process_request / _process_response / message_to_item and detect_protocol; a Python-over-JSON interpreter runs them and theorems show every run equal to the model's function (C04_*_from_source)."),
         note=TB + "Floats are opaque repr tokens; strings avoid a high surrogate directly followed by a low one (json merges them, note N4).",
         technique="Coq proof (symbolic evaluation of the classifiers on built payloads; nested induction for the printer; parser/printer round trip by induction over strings, digits and nested values with explicit fuel) + byte-exact vm_compute correspondence in both directions",
         ref='6/C04'),
@@ -209,7 +213,8 @@ CLAIMED = {
               "failure behaviour read from the table measured on the running code: all four kinds are parse errors after the "
               "fixes of F5-F7); a ProtocolError without reply arises only for response-like input; error replies are "
               "well-formed; the serving loop survives every message sequence. Correspondence: malformed stream in every "
-              "connection state; session level: streams into a serving RPCSession followed by a probe request."),
+              "connection state; session level: streams into a serving RPCSession followed by a probe request."
+              " receive_message as the source has it (translated on every run) is the model's receive_message (C05_receive_message_from_source), so the totality theorem speaks about the code as written today."),
         note=TB + "The JSON nesting limit depends on the interpreter stack depth at the call; inputs within ~100 levels of the limit are not generated.",
         technique="Coq proof (totality by case analysis + measured decoder-failure table) + correspondence on a malformed-input stream + session probe oracle",
         ref='6/C05'),
